@@ -9,6 +9,7 @@ CONSTANTS
   WN = 2
   WithExpiry = FALSE
   WithClose = FALSE
+  QueueGuardedClose = TRUE
   AtomicExpiry = FALSE
   NotifyOnExit = "never"
 INVARIANTS Inv_AtMostOnce Inv_RejectedNeverRun Inv_MaxConcurrent Inv_Counts Inv_HandlerOnlyJobPanics
